@@ -45,6 +45,9 @@ pub fn set_monitor_thread() { let _ = MONITOR.set(thread::current()); }
 /// Pool threads that have reported their exit (the report is made by the dying thread itself, while it is still unwinding):
 /// kernel thread id and start time, so that "that thread is gone" can be read off /proc exactly
 pub static DYING: Mutex<Vec<(u32, u64)>> = Mutex::new(Vec::new());
+/// Number of exits whose task could be identified (if /proc/thread-self is unreadable the monitor falls back to counting)
+pub static DYING_NOTED: AtomicUsize = AtomicUsize::new(0);
+pub static PANIC_NOTED: AtomicUsize = AtomicUsize::new(0);
 #[cfg(not(miri))]
 fn own_task() -> Option<(u32, u64)> {
     let link = std::fs::read_link("/proc/thread-self").ok()?;
@@ -70,11 +73,11 @@ pub fn dying_threads_gone() -> bool {
 /// A body that is about to panic on a pool thread kills that thread: note it (this also covers builds without the hooks)
 pub fn note_dying_pool_thread() {
     if thread::current().name().map(|n| n.starts_with("desync jobs thr")).unwrap_or(false) {
-        if let Some(t) = own_task() { if let Ok(mut d) = DYING.lock() { d.push(t); } }
+        if let Some(t) = own_task() { if let Ok(mut d) = DYING.lock() { d.push(t); PANIC_NOTED.fetch_add(1, Ordering::SeqCst); } }
     }
 }
 pub fn on_exit_event() {
-    if let Some(t) = own_task() { if let Ok(mut d) = DYING.lock() { d.push(t); } }
+    if let Some(t) = own_task() { if let Ok(mut d) = DYING.lock() { d.push(t); DYING_NOTED.fetch_add(1, Ordering::SeqCst); } }
     POOL_EXITS.fetch_add(1, Ordering::SeqCst);
     if let Some(m) = MONITOR.get() { m.unpark(); }
     if let Ok(ms) = std::env::var("DH_SELFTEST_SLOW_EXIT_MS") { thread::sleep(Duration::from_millis(ms.parse().unwrap_or(0))); }
@@ -301,6 +304,8 @@ pub fn run_program(prog: Program, opts: &Opts, plan: noise::Plan) -> RunResult {
     POOL_OVER.store(0, Ordering::SeqCst);
     if DYING.lock().map(|d| d.len() > 32).unwrap_or(false) { let _ = dying_threads_gone(); }   // forget threads that are long gone
     let exits0 = POOL_EXITS.load(Ordering::SeqCst);
+    let noted0 = DYING_NOTED.load(Ordering::SeqCst);
+    let pnoted0 = PANIC_NOTED.load(Ordering::SeqCst);
     POOL_PEAK.store(live_pool(), Ordering::SeqCst);
     POOL_MAX_NOW.store(pool, Ordering::SeqCst);
     if cfg!(feature = "hooks") && live_pool() > pool {
@@ -452,7 +457,8 @@ pub fn run_program(prog: Program, opts: &Opts, plan: noise::Plan) -> RunResult {
             // by the dying thread itself). Comparing the number of named pool threads with the hook's counter is not enough: a pool
             // thread that was spawned but has not named itself yet makes the count come out right while the dying thread still exists.
             if native {
-                match wait_until(native, watchdog, || dying_threads_gone()) {
+                let noted_enough = DYING_NOTED.load(Ordering::SeqCst) >= noted0 + need || PANIC_NOTED.load(Ordering::SeqCst) >= pnoted0 + need;
+                match wait_until(native, watchdog, || dying_threads_gone() && (noted_enough || quiesce::snapshot().map(|s| quiesce::pool_threads(&s) <= live_pool()).unwrap_or(true))) {
                     Wait::Done => {}
                     _ => { outcome = Outcome::Inconclusive("a pool thread that reported its exit is still listed by the kernel".into()); break; }
                 }
